@@ -211,3 +211,37 @@ Theorem C03_sites_covered sites minters burners :
   (forall m, In m burners -> In m allowed_burners).
 Proof. exact (check_sound_sites sites minters burners). Qed.
 Print Assumptions C03_sites_covered.
+
+(* -- the observed histories of the full application (Model/Ledger.v, drivers TestHistAll / TestHistDisputes /
+      TestHistPayouts): what an empty result of the executable check says ------------------------------ *)
+From Coq Require Import String.
+From Verif Require Model.Ledger Proofs.LedgerProofs.
+
+(* after every step the sum of all balances is the recorded supply, and every step whose supply change the
+   documented events pin (a tip: minus 2 %; a withdrawal: minus the amount; a deposit claim: plus the reported
+   amount; a rejected message and every other message: nothing) changed the supply by exactly that *)
+Theorem C03_hist_step before s d :
+  Ledger.c03_step before s = [] ->
+  Ledger.sp_balsum (Ledger.st_after s) = Ledger.sp_supply (Ledger.st_after s) /\
+  (Ledger.expected_supply_delta s = Some d -> Ledger.sp_supply (Ledger.st_after s) - Ledger.sp_supply before = d).
+Proof. exact (LedgerProofs.c03_step_sound before s d). Qed.
+Print Assumptions C03_hist_step.
+
+(* a completed begin blocker changed the supply by exactly the block provision minus the documented burn (half the
+   burn amount, all of it when nobody voted) of each dispute it executed; none of those is a superseded round *)
+Theorem C03_hist_begin_block before signer params after decs :
+  Ledger.c03_step before (Ledger.Step "BeginBlock"%string signer 0 params after decs) = [] ->
+  let s := Ledger.Step "BeginBlock"%string signer 0 params after decs in
+  Ledger.sp_supply after - Ledger.sp_supply before
+    = Ledger.begin_block_mint s - Ledger.zsum (map Ledger.dispute_burn (Ledger.begin_block_executed s)) /\
+  (forall id b f, In (id, b, f) (Ledger.begin_block_executed s) -> Z.testbit f 1 = false) /\
+  Ledger.sp_tbr after - Ledger.sp_tbr before = Ledger.begin_block_mint s - Z.quot (Ledger.begin_block_mint s) 4 /\
+  Ledger.sp_feecoll after - Ledger.sp_feecoll before = Z.quot (Ledger.begin_block_mint s) 4.
+Proof. exact (LedgerProofs.c03_step_sound_begin_block before signer params after decs). Qed.
+Print Assumptions C03_hist_begin_block.
+
+(* no dispute was executed, and its burn taken, twice in a history *)
+Theorem C03_hist_executed_once init steps :
+  Ledger.c03_hist_check (Ledger.Hist init steps) = [] -> NoDup (Ledger.executed_ids steps).
+Proof. exact (LedgerProofs.c03_hist_executed_once init steps). Qed.
+Print Assumptions C03_hist_executed_once.
